@@ -334,7 +334,7 @@ func runConcurrency(r *ev.Run) *concStats {
 					all = append(all, sched{base, a, b, i, 0, seq, seqStr})
 					// preemption bound 2 (B parks mid-commit as well): quick tier only for the second threads that
 					// can themselves commit the contested height through the lock-taking entry points
-					if r.Quick() && !(b.name == "Submit(next)" || b.name == "Add(next)" || b.name == "Submit(sibling)") {
+					if r.Quick() && !(b.name == "Submit(next)" || b.name == "Add(next)") {
 						continue
 					}
 					for j := 1; j <= kB; j++ {
